@@ -357,7 +357,9 @@ twin, _replay_twin = adopt_twin('twin.tC16', FINDING_PATTERNS)
 
 
 def replay(unit, name, model):
-    return {'reproduced': False, 'what': 'no native replay for proof counterexamples of this unit'}
+    """native replay of a solver model on the real classes (props/replay_misc.py)"""
+    from props import replay_misc
+    return replay_misc.replay(unit, name, model)
 
 
 def replay_file(doc):
